@@ -19,22 +19,24 @@
 // state that matters here - lengths and capacities - is not part of the
 // reference, so every program is executed):
 //
-//	source   n prior back-offs (n = 0..maxPrior, plus the values around the 16 -> 32 growth in thorough)
-//	         of 1, 2 or 3 different kinds (round robin), made
+//	source   n prior back-offs (n = 0..9; thorough also 10, 11, 12, 16, 17 with the quick step families: the growth steps 1,2,4,8,16,32 of a list
+//	         that is appended to, and the size classes 1,2,3,4,6,8,10,12,.. of an exact-size copy) of 1 or 3
+//	         different kinds (round robin), made
 //	           direct   : on the root back-offer, which is the source
 //	           fork     : on the root; the source is a Fork() of it
 //	           fork-mid : half on the root, then Fork(), the rest on the fork = the source
 //	           merged   : half on the root, Fork(), rest on the fork, root.UpdateUsingForked(fork); source = root
 //	derived  TWO back-offers D1, D2 taken from the source S:
 //	           clone+clone, fork+clone-of-fork, clone+clone-of-clone, fork+fork, clone+fork, fork+fork-of-fork
-//	         D2 is taken either together with D1 or only right before its own first step
-//	steps    every interleaving of a (1..maxAB) back-offs of D1, b (1..maxAB) of D2 and c (0..maxS) of S,
-//	         every step on every kind of the step alphabet (one kind the source already used, two new
-//	         kinds with different magnitudes; thorough: also the budget-excluded kind)
+//	         D2 is taken together with D1, or (when it is derived from D1) only right before its own first step
+//	steps    families of step sequences (aliasBoundsFor): every interleaving of a back-offs of D1, b of D2
+//	         (a, b = 1..2; thorough 1..3 with a+b <= 5) and s (0 or 1) of S, every step on every kind of the step alphabet: the
+//	         kind the source already used and two new kinds of different magnitude (thorough: also the
+//	         budget-excluded kind; its longest sequences use the old and one new kind only)
 //	budget   exactly the non-excluded total that D1 / D2 / S (if it steps) has after its last step, so that
 //	         this back-offer is exhausted from then on while the others go on
-//	ending   optionally UpdateUsingForked(D1) or (D2) into its parent (thorough: also into the top of its parent
-//	         chain), one more back-off of the receiver and of the surviving derived back-offer
+//	ending   UpdateUsingForked(D1) or (D2) into its parent if it has one (thorough: also into the top of its parent
+//	         chain), then one more back-off of the receiver and of the other derived back-offer
 //
 // Observation, after EVERY operation: the complete observation set of every
 // live back-offer (GetTotalSleep, GetTotalBackoffTimes, ErrorsNum,
@@ -42,7 +44,8 @@
 // that is exhausted according to the reference one more Backoff call (a
 // "probe": it must be refused without sleeping and report the error of the
 // kind with the largest accumulated sleep of THAT back-offer; a refused call
-// changes nothing, so probing is an observation).
+// changes nothing, so probing is an observation; no probes behind an operation
+// of the program that was itself a refused call, except at the end).
 //
 // Oracle: the reference accountant of ref.go, in which Clone / Fork copy the
 // counters by value (deep-copy semantics) and UpdateUsingForked copies the
@@ -100,8 +103,6 @@ const (
 	actD2
 )
 
-var actNames = []string{"S", "D1", "D2"}
-
 type aliasStep struct{ Actor, Kind uint8 }
 
 type aliasBase struct {
@@ -111,6 +112,8 @@ type aliasBase struct {
 	Shape uint8
 	Late  bool
 	Jit   uint8
+	// basicOnly: only the step sequences of the first nBasic families (the ones of the quick tier)
+	basicOnly bool
 }
 
 func (b aliasBase) String() string {
@@ -122,14 +125,16 @@ func (b aliasBase) String() string {
 }
 
 type aliasBounds struct {
-	priors   []int
-	patterns []int
-	vias     []uint8
-	shapes   []uint8
-	lates    []bool
-	jits     []uint8
-	families []seqFamily
-	farMerge bool
+	priors      []int
+	priorsBasic []int // further values of n that are run with the first nBasic families only
+	nBasic      int
+	patterns    []int
+	vias        []uint8
+	shapes      []uint8
+	lates       []bool
+	jits        []uint8
+	families    []seqFamily
+	farMerge    bool
 	// quick: "D2 taken right before its first step" only for the pairs in which D2 is derived from D1 (there it inherits D1's steps)
 	lateOnlyChained bool
 }
@@ -148,22 +153,22 @@ func aliasBoundsFor(thorough bool) aliasBounds {
 		shapes: []uint8{shCC, shFC, shCofC, shFF, shCF, shFofF},
 		lates:  []bool{false, true}, jits: []uint8{jitMax},
 		families:        []seqFamily{{s: 0, maxAB: 2, nk: 3}, {s: 1, maxAB: 1, nk: 3}},
+		nBasic:          2,
 		lateOnlyChained: true,
 	}
 	if thorough {
-		b.priors = append(all(12), 16, 17) // 16 -> 17: the next growth of a directly used back-offer's list
-		b.patterns = []int{1, 2, 3}
+		b.priorsBasic = []int{10, 11, 12, 16, 17} // 16 -> 17: the next growth of a directly used back-offer's list
 		b.farMerge = true
 		b.families = append(b.families,
-			seqFamily{s: 0, maxAB: 3, nk: 2}, // longer runs of each derived back-offer: the old kind and one new kind
-			seqFamily{s: 1, maxAB: 2, nk: 2}, // the source steps in between
+			seqFamily{s: 0, maxAB: 3, nk: 2, maxSum: 5}, // longer runs of each derived back-offer: the old kind and one new kind
+			seqFamily{s: 1, maxAB: 2, nk: 2},            // the source steps in between
 			seqFamily{s: 0, maxAB: 2, nk: 4, needExcl: true})
 	}
 	return b
 }
 
 func aliasBases(ab aliasBounds) (out []aliasBase) {
-	for _, n := range ab.priors {
+	for pi, n := range append(append([]int(nil), ab.priors...), ab.priorsBasic...) {
 		for _, pat := range ab.patterns {
 			if pat > max(n, 1) {
 				continue // fewer back-offs than kinds: the same program as with fewer kinds
@@ -178,7 +183,7 @@ func aliasBases(ab aliasBounds) (out []aliasBase) {
 							continue
 						}
 						for _, j := range ab.jits {
-							out = append(out, aliasBase{N: n, Pat: pat, Via: via, Shape: sh, Late: late, Jit: j})
+							out = append(out, aliasBase{N: n, Pat: pat, Via: via, Shape: sh, Late: late, Jit: j, basicOnly: pi >= len(ab.priors)})
 						}
 					}
 				}
@@ -192,6 +197,7 @@ func aliasBases(ab aliasBounds) (out []aliasBase) {
 // and exactly s steps of S, every step on every one of the first nk kinds of the step alphabet.
 type seqFamily struct {
 	s, maxAB, nk int
+	maxSum       int  // 0: none; otherwise a + b <= maxSum
 	needExcl     bool // only the sequences that use the budget-excluded kind (the others are in another family)
 }
 
@@ -200,11 +206,14 @@ func (f seqFamily) String() string {
 	if f.needExcl {
 		x = " (sequences with the excluded kind)"
 	}
+	if f.maxSum > 0 {
+		x += fmt.Sprintf(" D1+D2<=%d", f.maxSum)
+	}
 	return fmt.Sprintf("S:%d D1,D2:1..%d kinds:%d%s", f.s, f.maxAB, f.nk, x)
 }
 
 // aliasSeqs lists the step sequences of all families without repetition, shortest first.
-func aliasSeqs(ab aliasBounds) (out [][]aliasStep) {
+func aliasSeqs(fams []seqFamily) (out [][]aliasStep) {
 	var cur []aliasStep
 	seen := map[string]bool{}
 	var rec func(left [3]int, nk int, needExcl bool)
@@ -243,9 +252,12 @@ func aliasSeqs(ab aliasBounds) (out [][]aliasStep) {
 			left[a]++
 		}
 	}
-	for _, f := range ab.families {
+	for _, f := range fams {
 		for a := 1; a <= f.maxAB; a++ {
 			for b := 1; b <= f.maxAB; b++ {
+				if f.maxSum > 0 && a+b > f.maxSum {
+					continue
+				}
 				rec([3]int{f.s, a, b}, f.nk, f.needExcl)
 			}
 		}
@@ -258,8 +270,7 @@ func aliasSeqs(ab aliasBounds) (out [][]aliasStep) {
 type aliasCore struct {
 	ops        []op
 	slot       [3]int // slots of S, D1, D2
-	root       int
-	deriveFrom int // index of the first derive operation
+	deriveFrom int    // index of the first derive operation
 }
 
 func boOp(slot int, kind string, jit uint8) op {
@@ -351,7 +362,7 @@ type aliasExec struct {
 	fsPos     []int // number of executed operations (probes included) when the finding was made
 	executed  int64
 	probes    int64
-	probesDef int64 // refused calls for which the reference names a kind (not "the caller's error")
+	probesDef int64 // refused calls on a back-offer whose longest sleeper was recorded exactly once (a single entry names it)
 	onState   func(h uint64, nontrivial bool)
 	outc      map[outKey]int64
 }
@@ -517,8 +528,14 @@ func (x *aliasExec) run() {
 			ok.class = classOrKind(res.class)
 			if exp.exhausted {
 				x.probes++
-				if len(exp.classes) > 0 && exp.classes[0] != "passed" {
-					x.probesDef++
+				// the informative ones: the longest sleeper has a single entry in this back-offer's list
+				if _, argmax := ref.bos[o.Slot].longestSleepers(); len(argmax) > 0 {
+					for _, id := range argmax {
+						if ref.bos[o.Slot].times[id] == 1 {
+							x.probesDef++
+							break
+						}
+					}
 				}
 			}
 		}
@@ -616,7 +633,7 @@ type aliasReplay struct {
 
 type aliasStats struct {
 	bases, seqs, programs, steps, states, nontrivial, probes, probesDef int64
-	bounds                                                            aliasBounds
+	bounds                                                              aliasBounds
 }
 
 // variants returns the (ending, budget) variants of one core program: the
@@ -705,7 +722,8 @@ func (v *aliasViol) before(o *aliasViol) bool {
 func runAlias(thorough bool) aliasStats {
 	ab := aliasBoundsFor(thorough)
 	bases := aliasBases(ab)
-	seqs := aliasSeqs(ab)
+	seqs := aliasSeqs(ab.families)
+	seqsBasic := aliasSeqs(ab.families[:ab.nBasic])
 	st := aliasStats{bounds: ab, bases: int64(len(bases)), seqs: int64(len(seqs))}
 	workers := runtime.GOMAXPROCS(0)
 	// allocation heavy with a tiny live heap: without a ballast the collector runs all the time and serialises the workers
@@ -746,7 +764,11 @@ func runAlias(thorough bool) aliasStats {
 				// (prior back-offs, derivation) or in the jitter answers, so the sum over units is the global count
 				seen := map[uint64]bool{}
 				idx := 0
-				for _, seq := range seqs {
+				unitSeqs := seqs
+				if base.basicOnly {
+					unitSeqs = seqsBasic
+				}
+				for _, seq := range unitSeqs {
 					core, ok := base.expand(seq)
 					if !ok {
 						continue
@@ -787,7 +809,7 @@ func runAlias(thorough bool) aliasStats {
 							}
 							cur.count++
 						}
-						if wr.programs%20011 == 7 {
+						if (ui*7919+idx)%20011 == 7 {
 							samples.Add(func() any {
 								return map[string]any{"suite": "alias", "program": base.String(), "budget": budget, "history": histText(ops), "operations_executed_incl_probes": x.executed, "refused_probes": x.probes}
 							})
